@@ -54,9 +54,9 @@ CLAIMED = {
    note="Not covered: value of %, evaluation of nested nodes by get_column_expr_value, lexer operator detection, arithmetic inside ORDER BY without WHERE."),
 
  "C08": dict(engine="F+V", ref="5/C08",
-   technique="Kani on the real partition_output_buffer (whole function verbatim on a heap-free shim world: token texts, array-backed HashMap / Vec stand-ins) with symbolic key values; Kani on the grouping-key loop of check_file; Verus on the real parse_group_by",
-   text="Bounded: for every assignment of key values (2-element domain) to 3 buffered rows the real partition_output_buffer yields one group per distinct key value, every row in the group of its own key and in no other, in buffer order, the group sizes adding up to the number of rows - so the group COUNTs add up to the ungrouped COUNT. The grouping keys (also unselected ones) are evaluated for every accepted entry and reach the row map the partition reads. parse_group_by is panic-free and terminating for every token vector (Verus).",
-   note="Bounded (3 rows, 1 grouping expression). Not covered: the grouped output loop of list_search_results - that each group's row shows the aggregates of its own rows, ORDER BY over group rows - and hashing (std HashMap replaced by an association-list stand-in)."),
+   technique="Kani on the real partition_output_buffer and the grouped output block of list_search_results (both verbatim on a heap-free shim world: token texts, array-backed HashMap / Vec / Rc stand-ins with the std method names) with symbolic key values; Kani on the grouping-key loop of check_file; Verus on the real parse_group_by",
+   text="Bounded (3 buffered rows, one grouping expression, key values from a 2-element domain - every assignment, symbolically): partition_output_buffer yields one group per distinct key value, every row in the group of its own key and in no other, in buffer order; the grouped output block writes exactly one row per distinct key value, showing the key and the aggregate computed over the rows of that group only, the group COUNTs adding up to the ungrouped COUNT, with separators only between rows; ORDER BY over an aggregate sorts the group rows numerically (2 witnesses). The grouping keys (also unselected ones) are evaluated for every accepted entry and reach the row map the partition reads. parse_group_by is panic-free and terminating for every token vector (Verus).",
+   note="Bounded (3 rows, 1 grouping expression, columns key + COUNT). Trusted: hashing (std HashMap replaced by an association-list stand-in), stability of sort_by, the aggregate implementations (C07)."),
 
  "C05": dict(engine="V+F+K", ref="5/C05",
    technique="Kani on the verbatim bodies of Criteria::cmp / cmp_at (shim receiver types), on the positional / DESC arms of parse_order_by and on is_numeric_field over the whole Field enum; Verus contract on the real parse_order_by",
